@@ -239,6 +239,8 @@ class PArr(object):
             if self.order_tag is not None:
                 return 1
             return b.shape.ndim if isinstance(b.shape, SymShape) else len(b.shape)
+        if name == 'itemsize':
+            return DT._SIZE[b.dtype.name]
         if name == 'ravel':
             return ip.Builtin('ravel', self._ravel)
         if name == 'copy':
